@@ -24,6 +24,10 @@ type Case struct {
 	Late string `json:"late,omitempty"`
 	// Wild: statements added without a reference outcome (see addWild).
 	Wild []string `json:"wild,omitempty"`
+	// Older: an older revision of this module of the set is loaded too (same namespace and prefix; a shorthand
+	// choice, an augment of its own, nothing refers to it). Its tree must be as proper as the others.
+	Older      string `json:"older_revision_of,omitempty"`
+	OlderFirst bool   `json:"older_first,omitempty"`
 }
 
 func kindName(e *yang.Entry) string {
@@ -154,6 +158,14 @@ func check(c Case) (o ev.Outcome) {
 		return
 	}
 	srcs := schema.Sources(c.Set, c.Order)
+	if m := c.Set.Find(c.Older); m != nil && !m.IsSub && len(m.Revisions) > 0 {
+		old := ymodel.Source{Name: m.Name + "@2019-05-05.yang", Text: fmt.Sprintf("module %s {\n  namespace %s;\n  prefix %s;\n  revision 2019-05-05;\n  container oldc {\n    choice och { leaf oa { type string; } container ob { leaf x { type string; } } }\n  }\n  augment \"/%s:oldc\" { leaf oz { type string; } choice och2 { leaf ob2 { type string; } } }\n  rpc oldop { input { leaf i { type string; } } }\n}\n", m.Name, ymodel.Q(m.Namespace), m.Prefix, m.Prefix)}
+		if c.OlderFirst {
+			srcs = append([]ymodel.Source{old}, srcs...)
+		} else {
+			srcs = append(srcs, old)
+		}
+	}
 	var obs *schema.Observed
 	if !ev.Guard(&o, "load+process", func() { obs = schema.Load(srcs, nil) }) {
 		// crashes belong to C01; keep the signature distinct
@@ -190,6 +202,9 @@ func check(c Case) (o ev.Outcome) {
 		return
 	}
 	o.Class("clean")
+	if c.Older != "" {
+		o.Class("older-revision-also-loaded")
+	}
 	for _, f := range c.Wild {
 		o.Class("wild/" + f)
 	}
@@ -353,8 +368,19 @@ func addWild(t *rapid.T, set *ymodel.Set) []string {
 			if tg == nil {
 				continue
 			}
-			from.Deviations = append(from.Deviations, &ymodel.Deviation{Path: tg.Path, Deviates: []*ymodel.Deviate{{Kind: "not-supported"}}})
-			feats = append(feats, "not-supported/"+tg.Node.Kind)
+			switch rapid.IntRange(0, 3).Draw(t, "wild-deviation") {
+			case 0:
+				// the same removal written twice
+				from.Deviations = append(from.Deviations, &ymodel.Deviation{Path: tg.Path, Deviates: []*ymodel.Deviate{{Kind: "not-supported"}, {Kind: "not-supported"}}})
+				feats = append(feats, "not-supported-twice/"+tg.Node.Kind)
+			case 1:
+				// a type for whatever the target is
+				from.Deviations = append(from.Deviations, &ymodel.Deviation{Path: tg.Path, Deviates: []*ymodel.Deviate{{Kind: rapid.SampledFrom([]string{"replace", "add"}).Draw(t, "type-deviate"), Type: &ymodel.TypeRef{Name: "string"}}}})
+				feats = append(feats, "deviate-type/"+tg.Node.Kind)
+			default:
+				from.Deviations = append(from.Deviations, &ymodel.Deviation{Path: tg.Path, Deviates: []*ymodel.Deviate{{Kind: "not-supported"}}})
+				feats = append(feats, "not-supported/"+tg.Node.Kind)
+			}
 		}
 	}
 	return feats
@@ -367,6 +393,17 @@ func gen(t *rapid.T) Case {
 	c := Case{Set: set}
 	if rapid.IntRange(0, 3).Draw(t, "wild") == 0 {
 		c.Wild = addWild(t, set)
+	}
+	if rapid.IntRange(0, 4).Draw(t, "older-revision") == 0 {
+		var mods []*ymodel.Module
+		for _, m := range set.Modules {
+			if !m.IsSub {
+				mods = append(mods, m)
+			}
+		}
+		m := mods[rapid.IntRange(0, len(mods)-1).Draw(t, "older-of")]
+		m.Revisions = []string{"2021-12-31"}
+		c.Older, c.OlderFirst = m.Name, rapid.Bool().Draw(t, "older-first")
 	}
 	if rapid.IntRange(0, 7).Draw(t, "plant-in-rpc") == 0 && plantInRPC(t, set) {
 		c.Late = "unknown-type-below-rpc-input-output"
@@ -381,7 +418,7 @@ func TestCheck(t *testing.T) {
 	ev.Run(t, ev.Spec[Case]{
 		ID:    "C04",
 		Level: "exploration",
-		Rule: "module sets generated valid by construction from the schema model (1-3 modules with imports under arbitrary prefixes, 0-2 submodules each with nested includes, typedefs and groupings at every scope from a three-name pool, uses nested to depth 3 across modules and submodules, containers, lists, leaves, leaf-lists, choices with explicit and shorthand cases, anydata/anyxml, rpc/action/notification with and without input/output, augments chained across modules) in model or permuted load order; a quarter of the sets further carry statements for which only the invariant is the oracle (augments whose path names the implicit case of a shorthand choice member, choices put straight into a choice or brought as shorthand members by an augment, deviate not-supported of any node including rpc input/output); plus sets with a planted late problem (two augments colliding on a child name, inapplicable deviations). " +
+		Rule: "module sets generated valid by construction from the schema model (1-3 modules with imports under arbitrary prefixes, 0-2 submodules each with nested includes, typedefs and groupings at every scope from a three-name pool, uses nested to depth 3 across modules and submodules, containers, lists, leaves, leaf-lists, choices with explicit and shorthand cases, anydata/anyxml, rpc/action/notification with and without input/output, augments chained across modules) in model or permuted load order; a quarter of the sets further carry statements for which only the invariant is the oracle (augments whose path names the implicit case of a shorthand choice member, choices put straight into a choice or brought as shorthand members by an augment, deviate not-supported (also written twice) and deviate replace/add type of any node including rpc input/output); in a fifth of the sets an older revision of one module (with a shorthand choice, an augment of its own and an rpc) is loaded as well; plus sets with a planted late problem (two augments colliding on a child name, inapplicable deviations). " +
 			"Oracle when Process() is clean: full walk of every module tree over Dir and RPC input/output: key = child name, parent link = holder (input/output -> rpc/action), every *Entry met once (no sharing between places, uses or modules), kind/child map/list attributes/type mutually consistent, every child of a choice a case, no augment left, no node with a recorded error, GetErrors() empty; with a planted late problem Process() must report an error. " +
 			"Non-trivial = clean set whose trees contain a node that went through >= 2 copy/merge steps (uses in uses, uses+augment, include+uses; known from the model), or that carries one of the invariant-only statements, or a planted late problem; distinct by (set, order)",
 		Assumptions: []string{
